@@ -326,10 +326,18 @@ def wl_history(ctx, rng, i):
                     elif how == "same-value" and k in prev_j:
                         val = prev_j[k]
                     label = "new_version(%s=<%s>)" % (k, how)
+                    via_cp = form == "object" and how == "other-value" and rng.random() < 0.4
+                    if via_cp:
+                        # the same attempt by way of the custom_properties argument (also for a property the object lacks so far)
+                        label = "new_version(custom_properties={%s: <%s>})" % (k, how)
+                        ctx.see("operations", "unmodifiable-probe-via-custom_properties:%s:%s" % (k, "present" if k in prev_j else "absent"))
                     try:
-                        r = stix2.versioning.new_version(prev, **{k: val}) if form == "dict" else prev.new_version(**{k: val})
+                        if via_cp:
+                            r = prev.new_version(custom_properties={k: val})
+                        else:
+                            r = stix2.versioning.new_version(prev, **{k: val}) if form == "dict" else prev.new_version(**{k: val})
                         rj = to_json(r)
-                        if how == "same-value" and all(rj.get(x) == prev_j.get(x) for x in UNMOD):
+                        if (how == "same-value" or via_cp) and all(rj.get(x) == prev_j.get(x) for x in UNMOD):
                             ctx.skip("re-stating an unmodifiable property with its current value was accepted (not a change)")
                         else:
                             ctx.violation("unmodifiable-property-changed", "%s was accepted" % label, {"previous": prev_j, "attempt": {k: val}, "result": rj})
